@@ -537,4 +537,231 @@ theorem sel3_keycond_list (root : Val) (rl entry : Bool) (gs : List GSeg) (q : P
     (hn.snoc_key hname hl) hk.plain hk.notText hrs
     (sel2_tok_reemit k op v hk hopc hv) (sel2_tok_text_bare op v hopc hv) hopc hg hrest hcont g (by simp; omega)
 
+/-! ### an inner `items` that is one dict record ("hidden list") -/
+
+/-- the `'..'` step when the shortened `found` text resolves to the value of a key: the walk continues in that
+value with the text of the resolution -/
+theorem sel3_up_step_key (fuel : Nat) (root : Val) (entry rl : Bool) (pp : Pos) (pv : Val) (found : Str) (rest up : List Str)
+    (cur : Res) (qq : Pos) (cls : Cls) (kvs : List (Str × Val)) (name : Str) (c : Val)
+    (hpar : getAt root pp = some pv)
+    (hup : ((splitChar '/' (fixBr found)).filter (fun t => !t.isEmpty)).dropLast = up)
+    (hinner : findD fuel root [] false false up (.at []) rl slash = .ok (root, cur))
+    (hcp : cur.parent = .at qq) (hni : cur.nameIdx = some name) (hname : KeyTok name)
+    (hqq : getAt root qq = some (.dict cls kvs)) (hl : lookup name kvs = some c) (hrest : rest ≠ []) :
+    findD (fuel + 1) root [] false entry (['.', '.'] :: rest) (.at pp) rl found
+      = findD fuel root [] false false rest (.at (qq ++ [Seg.key name])) rl (upFound cur) := by
+  have hr : rest.length ≥ 1 := by cases rest with | nil => exact absurd rfl hrest | cons _ _ => simp
+  have hne : name.isEmpty = false := isEmpty_false_of_ne hname.ne
+  rw [findD]
+  simp only [Bool.false_and, Bool.false_eq_true, if_false, valOf_at, hpar, split_up, List.isEmpty_cons,
+    Bool.not_false, Idx.truthy, if_true, hup, hinner, hcp, hni, hqq, hne, hname.split,
+    pyGetKey, hl, childRef, hr, Bool.or_true, decide_true]
+
+/-- **`'..'` from the field `k` of the dict under the key `name` of the dict at `q`** -/
+theorem sel3_up_field (root : Val) (entry rl : Bool) (pp : Pos) (pv : Val) (gs : List GSeg) (q : Pos) (name k : Str) (cls : Cls)
+    (kvs : List (Str × Val)) (inner : Val) (rest : List Str) (hn : Sel3Norm gs root q (.dict cls kvs)) (hname : PlainKey name)
+    (hl : lookup name kvs = some inner) (hk : PlainKey k) (hpar : getAt root pp = some pv)
+    (hrest : rest ≠ []) (fuel : Nat) (hfuel : fuel ≥ 2 * (q.length + 1)) :
+    findD (fuel + 1) root [] false entry (['.', '.'] :: rest) (.at pp) rl ('/' :: sel2Render (gs ++ [.key name, .key k]))
+      = findD fuel root [] false false rest (.at (q ++ [Seg.key name])) rl ('/' :: sel2Render (gs ++ [.key name])) := by
+  have hq := hn.getAt
+  have hn1 : Sel3Norm (gs ++ [.key name]) root (q ++ [.key name]) inner := hn.snoc_key hname hl
+  have hgood2 : GoodG (gs ++ [.key name, .key k]) := hn.good.append ⟨hname.gKey, hk.gKey, trivial⟩
+  have hup : ((splitChar '/' (fixBr ('/' :: sel2Render (gs ++ [.key name, .key k])))).filter (fun t => !t.isEmpty)).dropLast
+      = sel2Toks (gs ++ [.key name]) := by
+    rw [sel2_upToks _ hgood2, show gs ++ [GSeg.key name, GSeg.key k] = (gs ++ [.key name]) ++ .key k :: [] by simp,
+      sel2_toks_append_key]
+    simp [sel2Toks]
+  have hs := sel3_norm_spellsF _ _ _ _ hn1
+  have hlen := sel3_toks_length_le (gs ++ [.key name])
+  have hgl := hn.length
+  obtain ⟨cur, hcur, ⟨_, _, pp', s, pv', ni, hsplit, hcp, hpv', hni, hnm⟩, hupf⟩ :=
+    sel2_find_spellsF root rl hs (sel3_toks_ne_nil _ (by simp)) fuel [] slash false rfl (by simp at hlen ⊢; omega)
+  obtain ⟨rfl, hs'⟩ := List.append_inj' hsplit rfl
+  have hs'' : s = .key name := by simpa using hs'.symm
+  subst hs''
+  simp only [List.nil_append] at hcp hpv'
+  rw [hq] at hpv'; cases hpv'
+  rcases hnm.inv with ⟨_, _, k', h1, h2, h3⟩ | ⟨_, _, _, _, _, h, _, _⟩
+  · have hk' : name = k' := by cases h2; rfl
+    subst hk'
+    cases h1; rw [h3] at hni
+    rw [sel3_up_step_key fuel root entry rl pp pv _ rest _ cur q cls kvs name inner hpar hup hcur hcp hni hname.keyTok hq hl hrest,
+      hupf]
+    rfl
+  · cases h
+
+/-- the steps `items[k2 op v2]`, `f` in an outer record whose `items` is ONE dict record: the predicate is applied to
+that record and the value of `f` comes back un-listed -/
+theorem sel3_hidden_cont (root : Val) (rl : Bool) (gs : List GSeg) (pos : Pos) (c : Cls) (kvs' : List (Str × Val))
+    (items k2 f opx2 op2 vq2 v2 : Str) (c2 : Cls) (kvs2 : List (Str × Val))
+    (hn : Sel3Norm gs root pos (.dict c kvs')) (hitems : PlainKey items) (hk2 : FieldKey k2) (hf : PlainKey f)
+    (hop2 : OpSpell opx2 op2) (hlit2 : LitSpell vq2 v2) (hv2 : PlainLit v2)
+    (hl : lookup items kvs' = some (.dict c2 kvs2))
+    (hg : ∀ kv, lookup k2 kvs2 = some kv → textGuard kv (.str v2) = false)
+    (fu : Nat) (hfu : fu ≥ 2 * pos.length + 8) :
+    Sel2Out root
+      (findD fu root [] false false [items ++ bracket (k2 ++ opx2 ++ vq2), f] (.at pos) rl ('/' :: sel2Render gs))
+      (condOutcome k2 f op2 (.str v2) (.dict c2 kvs2)) := by
+  obtain ⟨g, rfl⟩ : ∃ g, fu = g + 4 := ⟨fu - 4, by omega⟩
+  have hq := hn.getAt
+  have hopc := opSpell_canon hop2
+  have hs0 := split_cond items k2 opx2 op2 vq2 v2 (Or.inr hitems) hk2.cond hop2 hlit2 hv2
+  have hq1 : getAt root (pos ++ [.key items]) = some (.dict c2 kvs2) := by rw [getAt_snoc, hq]; simp [child, hl]
+  rw [find_keycond_step (g + 3) root false rl pos _ _ items k2 op2 (.str v2) [f] c kvs' _ hq hs0 hitems.ne hitems.notUp
+    hitems.keyTok.notStar hl, sel3_fnd_key]
+  cases hlk : lookup k2 kvs2 with
+  | none =>
+    rw [find_cond_missing (g + 2) root false rl _ _ _ k2 op2 (.str v2) [f] c2 kvs2 hq1 (sel2_tok_reemit k2 op2 v2 hk2 hopc hv2)
+      hk2.notText hlk]
+    simpa [condOutcome, hlk] using sel2Out_notFound root _ _ _ _ _ (by simp)
+  | some kv =>
+    have hq2 : getAt root (pos ++ [.key items] ++ [.key k2]) = some kv := by rw [getAt_snoc, hq1]; simp [child, hlk]
+    rw [find_cond_step (g + 2) root false rl _ _ _ k2 op2 (.str v2) [f] c2 kvs2 kv hq1 (sel2_tok_reemit k2 op2 v2 hk2 hopc hv2)
+      hk2.notText hlk, sel3_fnd_key,
+      find_text_step (g + 1) root false rl _ kv _ _ op2 (.str v2) _ hq2 (sel2_tok_text_bare op2 v2 hopc hv2) hopc (hg kv hlk)]
+    cases hc : condTest op2 (.str v2) kv with
+    | false =>
+      simp only [Bool.false_eq_true, if_false]
+      simpa [condOutcome, hlk, hc] using sel2Out_notFound root _ _ _ _ _ (by simp)
+    | true =>
+      simp only [if_true]
+      rw [show gs ++ [GSeg.key items] ++ [GSeg.key k2] = gs ++ [.key items, .key k2] by simp,
+        sel3_up_field root false rl _ kv gs pos items k2 c kvs' _ [f] hn hitems hl hk2.plain hq2 (by simp) g (by omega)]
+      have := sel2_field_cont root rl _ c2 kvs2 f ('/' :: sel2Render (gs ++ [.key items])) hq1 hf.keyTok g (by omega)
+      simpa [condOutcome, hlk, hc, fieldOf] using this
+
+/-! ### chained selections: the continuation in one outer record -/
+
+/-- what the steps `items[k2 op v2]`, `f` yield in an outer record: the collected inner selection when `items` is a
+list (nothing when it is empty), the value of `f` of the record itself when `items` is one dict record that passes -/
+def sel3Inner (items k2 f op2 : Str) (v2 : CondVal) (rl : Bool) (rec : Val) : Option Val :=
+  match rec with
+  | .dict _ kvs' =>
+    match lookup items kvs' with
+    | some (.list _ xs) =>
+      if (somes (xs.map (condOutcome k2 f op2 v2))).isEmpty then Option.none
+      else some (collect rl (somes (xs.map (condOutcome k2 f op2 v2))))
+    | some (.dict c2 kvs2) => condOutcome k2 f op2 v2 (.dict c2 kvs2)
+    | _ => Option.none
+  | _ => Option.none
+
+/-- an `items` value the chained theorems cover: a list of dict records, or one dict record -/
+def Sel3ItemOK (k2 : Str) (v2 : CondVal) (x : Val) : Prop :=
+  (∃ lc xs, x = .list lc xs ∧ (∀ y ∈ xs, isDict y = true) ∧
+      ∀ c2 kvs2 kv, Val.dict c2 kvs2 ∈ xs → lookup k2 kvs2 = some kv → textGuard kv v2 = false) ∨
+  (∃ c2 kvs2, x = .dict c2 kvs2 ∧ ∀ kv, lookup k2 kvs2 = some kv → textGuard kv v2 = false)
+
+def Sel3InnerOK (items k2 : Str) (v2 : CondVal) (rs : List Val) : Prop :=
+  ∀ c kvs' x, Val.dict c kvs' ∈ rs → lookup items kvs' = some x → Sel3ItemOK k2 v2 x
+
+/-- the steps `items[k2 op v2]`, `f` in the outer record at `pos` -/
+theorem sel3_inner_cont (root : Val) (rl : Bool) (gs : List GSeg) (pos : Pos) (c : Cls) (kvs' : List (Str × Val))
+    (items k2 f opx2 op2 vq2 v2 : Str)
+    (M : Nat) (hn : Sel3Norm gs root pos (.dict c kvs')) (hitems : PlainKey items) (hk2 : FieldKey k2) (hf : PlainKey f)
+    (hop2 : OpSpell opx2 op2) (hlit2 : LitSpell vq2 v2) (hv2 : PlainLit v2)
+    (hok : ∀ x, lookup items kvs' = some x → Sel3ItemOK k2 (.str v2) x)
+    (hM : sel2InnerLen items (.dict c kvs') ≤ M)
+    (fu : Nat) (hfu : fu ≥ 2 * pos.length + M + 13) :
+    Sel2Out root
+      (findD fu root [] false false [items ++ bracket (k2 ++ opx2 ++ vq2), f] (.at pos) rl ('/' :: sel2Render gs))
+      (sel3Inner items k2 f op2 (.str v2) rl (.dict c kvs')) := by
+  have hq := hn.getAt
+  cases hl : lookup items kvs' with
+  | none =>
+    obtain ⟨g, rfl⟩ : ∃ g, fu = g + 1 := ⟨fu - 1, by omega⟩
+    rw [find_keycond_missing g root false rl _ _ _ items _ [f] c kvs' hq
+      (split_cond items k2 opx2 op2 vq2 v2 (Or.inr hitems) hk2.cond hop2 hlit2 hv2) hitems.ne hitems.notUp hitems.keyTok.notStar hl]
+    simpa [sel3Inner, hl] using sel2Out_notFound root _ _ _ _ _ (by simp)
+  | some x =>
+    rcases hok x hl with ⟨lc, xs, rfl, hds, hg⟩ | ⟨c2, kvs2, rfl, hg⟩
+    · have hlen : xs.length ≤ M := by simpa [sel2InnerLen, hl] using hM
+      have hn2 := hn.snoc_key hitems hl
+      have := (sel3_keycond_list root rl false gs pos items k2 opx2 op2 vq2 v2 c kvs' lc xs [f] (fieldOf f) 1 hn hitems hk2 hop2
+        hlit2 hv2 hl hds hg (by simp)
+        (fun j c2 kvs2 hj fu' hfu' => sel2_field_cont root rl _ c2 kvs2 f _ (sel2_getAt_snoc_idx hn2.getAt hj) hf.keyTok fu' hfu')
+        fu (by omega)).out
+      rw [sel2Sel_fieldOf] at this
+      simpa [sel3Inner, hl] using this
+    · have := sel3_hidden_cont root rl gs pos c kvs' items k2 f opx2 op2 vq2 v2 c2 kvs2 hn hitems hk2 hf hop2 hlit2 hv2 hl hg
+        fu (by omega)
+      simpa [sel3Inner, hl] using this
+
+/-- the selection of a chained lookup (for `return_lists` = `rl`) -/
+def sel3Chained (k1 op1 : Str) (v1 : CondVal) (items k2 f op2 : Str) (v2 : CondVal) (rl : Bool) (rs : List Val) : List Val :=
+  sel2Sel k1 op1 v1 (sel3Inner items k2 f op2 v2 rl) rs
+
+/-! ### the selecting forms behind spelled tokens, tree level -/
+
+/-- `toksP ++ [k op v] :: rest`: `toksP` spell the position of the record list -/
+theorem sel3_cond_find (root : Val) (rl : Bool) {toksP : List Str} {p : Pos} {lc : Cls} {rs : List Val} (k opx op vq v : Str)
+    (rest : List Str) (o : Val → Option Val) (F : Nat)
+    (hs : Sel3Spells toksP root p (.list lc rs)) (hk : FieldKey k) (hop : OpSpell opx op) (hlit : LitSpell vq v) (hv : PlainLit v)
+    (hrs : ∀ r ∈ rs, isDict r = true)
+    (hg : ∀ c kvs' kv, Val.dict c kvs' ∈ rs → lookup k kvs' = some kv → textGuard kv (.str v) = false) (hrest : rest ≠ [])
+    (hcont : ∀ gs, Sel3Norm gs root p (.list lc rs) → ∀ (j : Nat) (c : Cls) (kvs' : List (Str × Val)),
+      rs[j]? = some (.dict c kvs') → ∀ fu ≥ F, Sel2Out root
+        (findD fu root [] false false rest (.at (p ++ [.idx j])) rl ('/' :: sel2Render (gs ++ [.br (natStr j)]))) (o (.dict c kvs')))
+    (fuel : Nat) (hfuel : fuel ≥ F + 6 * toksP.length + rs.length + 9) :
+    Sel2Coll root rl (findD fuel root [] false true (toksP ++ bracket (k ++ opx ++ vq) :: rest) (.at []) rl slash)
+      (sel2Sel k op (.str v) o rs) := by
+  obtain ⟨gs, hsf, hn⟩ := sel3_spells_norm hs
+  have hpl := hs.pos_length
+  obtain ⟨fuel', e', h1, h2, heq⟩ := find_walk root rl hsf (bracket (k ++ opx ++ vq) :: rest) (by simp) fuel [] slash true rfl
+    (by omega)
+  have hopc := opSpell_canon hop
+  have hs1 : splitNameIndex (bracket (k ++ opx ++ vq)) = .ok ([], .cond k op (.str v)) := by
+    simpa using split_cond [] k opx op vq v (Or.inl rfl) hk.cond hop hlit hv
+  rw [heq]
+  simp only [List.nil_append]
+  exact sel3_cond_list root rl e' gs p k op _ (.str v) lc rs rest o F hn hk.plain hk.notText hrs hs1
+    (sel2_tok_text_bare op v hopc hv) hopc hg hrest (hcont gs hn) fuel' (by omega)
+
+/-- `toks' ++ name[k op v] :: rest`: `toks'` spell the position of the dict whose `name` is the record list -/
+theorem sel3_keycond_find (root : Val) (rl : Bool) {toks' : List Str} {q : Pos} {cls : Cls} {kvs : List (Str × Val)}
+    (name k opx op vq v : Str) (lc : Cls) (rs : List Val) (rest : List Str) (o : Val → Option Val) (F : Nat)
+    (hs : Sel3Spells toks' root q (.dict cls kvs)) (hname : PlainKey name) (hl : lookup name kvs = some (.list lc rs))
+    (hk : FieldKey k) (hop : OpSpell opx op) (hlit : LitSpell vq v) (hv : PlainLit v)
+    (hrs : ∀ r ∈ rs, isDict r = true)
+    (hg : ∀ c kvs' kv, Val.dict c kvs' ∈ rs → lookup k kvs' = some kv → textGuard kv (.str v) = false) (hrest : rest ≠ [])
+    (hcont : ∀ gs, Sel3Norm gs root (q ++ [.key name]) (.list lc rs) → ∀ (j : Nat) (c : Cls) (kvs' : List (Str × Val)),
+      rs[j]? = some (.dict c kvs') → ∀ fu ≥ F, Sel2Out root
+        (findD fu root [] false false rest (.at (q ++ [.key name] ++ [.idx j])) rl ('/' :: sel2Render (gs ++ [.br (natStr j)])))
+        (o (.dict c kvs')))
+    (fuel : Nat) (hfuel : fuel ≥ F + 6 * toks'.length + rs.length + 12) :
+    Sel2Coll root rl (findD fuel root [] false true (toks' ++ (name ++ bracket (k ++ opx ++ vq)) :: rest) (.at []) rl slash)
+      (sel2Sel k op (.str v) o rs) := by
+  obtain ⟨gs, hsf, hn⟩ := sel3_spells_norm hs
+  have hpl := hs.pos_length
+  obtain ⟨fuel', e', h1, h2, heq⟩ := find_walk root rl hsf ((name ++ bracket (k ++ opx ++ vq)) :: rest) (by simp) fuel [] slash true
+    rfl (by omega)
+  rw [heq]
+  simp only [List.nil_append]
+  exact sel3_keycond_list root rl e' gs q name k opx op vq v cls kvs lc rs rest o F hn hname hk hop hlit hv hl hrs hg hrest
+    (hcont (gs ++ [.key name]) (hn.snoc_key hname hl)) fuel' (by omega)
+
+/-- `toksP ++ k[text() op v] :: '..' :: rest` -/
+theorem sel3_textform_find (root : Val) (rl : Bool) {toksP : List Str} {p : Pos} {lc : Cls} {rs : List Val} (k opx op vq v : Str)
+    (rest : List Str) (o : Val → Option Val) (F : Nat)
+    (hs : Sel3Spells toksP root p (.list lc rs)) (hk : FieldKey k) (hop : OpSpell opx op) (hlit : LitSpell vq v) (hv : PlainLit v)
+    (hrs : ∀ r ∈ rs, isDict r = true)
+    (hg : ∀ c kvs' kv, Val.dict c kvs' ∈ rs → lookup k kvs' = some kv → textGuard kv (.str v) = false) (hrest : rest ≠ [])
+    (hcont : ∀ gs, Sel3Norm gs root p (.list lc rs) → ∀ (j : Nat) (c : Cls) (kvs' : List (Str × Val)),
+      rs[j]? = some (.dict c kvs') → ∀ fu ≥ F, Sel2Out root
+        (findD fu root [] false false rest (.at (p ++ [.idx j])) rl ('/' :: sel2Render (gs ++ [.br (natStr j)]))) (o (.dict c kvs')))
+    (fuel : Nat) (hfuel : fuel ≥ F + 6 * toksP.length + rs.length + 9) :
+    Sel2Coll root rl
+      (findD fuel root [] false true (toksP ++ (k ++ bracket (sTextFn ++ opx ++ vq)) :: ['.', '.'] :: rest) (.at []) rl slash)
+      (sel2Sel k op (.str v) o rs) := by
+  obtain ⟨gs, hsf, hn⟩ := sel3_spells_norm hs
+  have hpl := hs.pos_length
+  obtain ⟨fuel', e', h1, h2, heq⟩ := find_walk root rl hsf ((k ++ bracket (sTextFn ++ opx ++ vq)) :: ['.', '.'] :: rest) (by simp)
+    fuel [] slash true rfl (by omega)
+  have hopc := opSpell_canon hop
+  rw [heq]
+  simp only [List.nil_append]
+  exact sel3_textform_list root rl e' gs p k op _ (.str v) lc rs rest o F hn hk.plain hrs
+    (split_cond k sTextFn opx op vq v (Or.inr hk.plain) condKey_text hop hlit hv) (sel2_tok_text_quoted op v hopc hv) hopc hg
+    hrest (hcont gs hn) fuel' (by omega)
+
 end N0.XPath
